@@ -22,11 +22,11 @@ def reloaded (st : St V) (t : List XRef) (c : Bool) : St V :=
 
 theorem take_all (l : List XRef) (n : Nat) (h : l.length ≤ n) : l.take n = l := List.take_of_length_le h
 
-structure ReloadFacts (P : Params V) (d0 d d' : Doc V) (t : List XRef) : Prop where
+structure ReloadFacts (P : Params V) (d0 d d' : Doc V) (i : SaveInfo) (t : List XRef) : Prop where
   len : t.length = (prep d).size + 1
   pending : ∀ (j : Nat) (v : V) (g : Nat), chLookup (prep d).st2.changes j = some (v, g) →
       ∀ c, resolve (reloaded d'.st t c) j = .val v
-  xref : ∀ c, resolve (reloaded d'.st t c) (prep d).xid = .val P.xrefVal
+  xref : ∀ c, resolve (reloaded d'.st t c) (prep d).xid = .val (P.xrefRec d.tr (prep d).infoRef i)
   old : ∀ j : Nat, j < d0.st.refs.length → chLookup (prep d).st2.changes j = none →
       (∀ sid idx, d0.st.refs[j]? = some (.stream sid idx) → chLookup (prep d).st2.changes sid = none) →
       ∀ c, sameRd (resolve (reloaded d'.st t c) j) (resolve d0.st j)
@@ -34,10 +34,11 @@ structure ReloadFacts (P : Params V) (d0 d d' : Doc V) (t : List XRef) : Prop wh
 /-- the table rebuilt from the saved bytes and what it makes every number read as -/
 theorem reload_table_facts (P : Params V) (L : Layout) (hL : L.Pos) (d0 d d' : Doc V) (chain0) (i : SaveInfo)
     (hb : BaseOK d0 chain0) (hi : Inv d0 d) (h : save P L d = (d', .ok i)) :
-    ∃ t, mergeAll (newTable (prep d).size) ([⟨0, i.rows⟩] :: chain0) = .ok t ∧ ReloadFacts P d0 d d' t := by
+    ∃ t, mergeAll (newTable (prep d).size) ([⟨0, i.rows⟩] :: chain0) = .ok t ∧ ReloadFacts P d0 d d' i t := by
   have pf := prep_facts d0 d chain0 hb hi
   have hi' := inv_save_ok P L hL d0 d d' chain0 i hb hi h
   obtain ⟨w, rows, hw, hr, hst, hl, _, _, _, hrows, hsize⟩ := save_ok_spec P L d d' i h
+  have hinfo := (save_ok_info P L d d' i h w rows hw hr).symm
   subst hrows
   obtain ⟨f1, f2, f3, _⟩ := writeChanges_frame P L _ _ _ _ _ hw pf.inv.sorted
   obtain ⟨k1, ⟨ext, k2, k3⟩, k4, k5⟩ := writeChanges_ok P L _ hL.1 _ _ _ hw pf.inv.sorted pf.inv.objs_lt
@@ -94,7 +95,8 @@ theorem reload_table_facts (P : Params V) (L : Layout) (hL : L.Pos) (d0 d d' : D
     (by rw [hrowlen]; exact pf.size_ge) hb.pairs_entry hdom
   refine ⟨t, ht, ?_⟩
   -- reads in the reloaded state
-  have hobjs : d'.st.objs = w.objs ++ [⟨w.len, (prep d).xid, 0, P.xrefVal, []⟩] := by rw [hst]; rfl
+  have hobjs : d'.st.objs = w.objs ++ [⟨w.len, (prep d).xid, 0, P.xrefRec d.tr (prep d).infoRef i, []⟩] := by
+    rw [hst]; simp only [commit]; rw [hinfo]
   have hst' : d'.st.start = (prep d).st2.start := by rw [hst]; rfl
   have hstart0 : d'.st.start = d0.st.start := hi'.start_eq
   have hread_pending : ∀ (j : Nat) (v : V) (g : Nat), chLookup (prep d).st2.changes j = some (v, g) →
@@ -149,12 +151,13 @@ theorem trailer_ext (a b : Trailer V) (h1 : a.root = b.root) (h2 : a.info = b.in
 /-- **the saved bytes load again**, with the table of `reload_table_facts` and the same trailer -/
 theorem reload_after_save (P : Params V) (L : Layout) (hL : L.Pos) (d0 d d' : Doc V) (chain0) (i : SaveInfo)
     (hb : BaseOK d0 chain0) (hi : Inv d0 d) (h : save P L d = (d', .ok i)) (c : Bool) :
-    ∃ t, reload d'.st c = .ok ⟨reloaded d'.st t c, d.tr⟩ ∧ ReloadFacts P d0 d d' t := by
+    ∃ t, reload d'.st c = .ok ⟨reloaded d'.st t c, d.tr⟩ ∧ ReloadFacts P d0 d d' i t := by
   have pf := prep_facts d0 d chain0 hb hi
   have hi' := inv_save_ok P L hL d0 d d' chain0 i hb hi h
   obtain ⟨t, ht, facts⟩ := reload_table_facts P L hL d0 d d' chain0 i hb hi h
   refine ⟨t, ?_, facts⟩
   obtain ⟨w, rows, hw, hr, hst, hl, _, _, _, hrows, hsize⟩ := save_ok_spec P L d d' i h
+  have hinfo := (save_ok_info P L d d' i h w rows hw hr).symm
   subst hrows
   obtain ⟨k1, _, _, _⟩ := writeChanges_ok P L _ hL.1 _ _ _ hw pf.inv.sorted pf.inv.objs_lt
   simp only at k1
@@ -162,7 +165,7 @@ theorem reload_after_save (P : Params V) (L : Layout) (hL : L.Pos) (d0 d d' : Do
     have := hb.start_le; have := pf.inv.start_eq; have := pf.inv.len_ge
     simp only at *; omega
   have hpos : d'.st.start + d'.st.startxref = w.len := by rw [hst]; simp only [commit]; omega
-  have hlen : d'.st.len = w.len + L.xrefLen + L.tailLen := by rw [hst]; rfl
+  have hlen : d'.st.len = w.len + L.xrefLen i + L.tailLen i := by rw [hst]; simp only [commit]; rw [hinfo]
   have hsecs : d'.st.secs = (prep d).st2.secs ++ [⟨w.len, [⟨0, i.rows⟩], (prep d).size, d.tr.prev, d.tr.root, (prep d).infoRef⟩] := by
     rw [hst]; rfl
   have hsec : secAt d'.st.secs w.len = some ⟨w.len, [⟨0, i.rows⟩], (prep d).size, d.tr.prev, d.tr.root, (prep d).infoRef⟩ := by
@@ -177,11 +180,11 @@ theorem reload_after_save (P : Params V) (L : Layout) (hL : L.Pos) (d0 d d' : Do
   -- the trailer
   obtain ⟨_, _, ⟨vr, hroot⟩, _, _⟩ := loadTrailer_ok _ _ _ _ _ hl
   have hlook : ∀ j, chLookup d'.st.changes j =
-      if j = (prep d).xid then some (P.xrefVal, 0) else chLookup (prep d).st2.changes j := by
-    intro j; rw [hst]; simp [commit, chLookup_chInsert]
+      if j = (prep d).xid then some (P.xrefVal i, 0) else chLookup (prep d).st2.changes j := by
+    intro j; rw [hst]; simp only [commit]; rw [hinfo]; simp [chLookup_chInsert]
   have hroot' : ∃ v, resolve (reloaded d'.st t c) d.tr.root.1 = .val v := by
     by_cases hx : d.tr.root.1 = (prep d).xid
-    · exact ⟨P.xrefVal, by rw [hx]; exact facts.xref c⟩
+    · exact ⟨_, by rw [hx]; exact facts.xref c⟩
     · rcases Option.eq_none_or_eq_some (chLookup (prep d).st2.changes d.tr.root.1) with hc | ⟨⟨v, g⟩, hc⟩
       · have hc' : chLookup d'.st.changes d.tr.root.1 = none := by rw [hlook, if_neg hx]; exact hc
         have hlt : d.tr.root.1 < d0.st.refs.length := by
@@ -221,7 +224,7 @@ theorem reload_after_save (P : Params V) (L : Layout) (hL : L.Pos) (d0 d d' : Do
       congr 1
       exact trailer_ext _ _ rfl a.symm rfl
   have hsz : ¬ ((prep d).size > MAX_ID) := by rw [pf.size_eq]; omega
-  have hge : ¬ (d'.st.start + d'.st.startxref ≥ d'.st.len) := by rw [hpos, hlen]; have := hL.2; omega
+  have hge : ¬ (d'.st.start + d'.st.startxref ≥ d'.st.len) := by rw [hpos, hlen]; have := hL.2 i; omega
   have hsec' := hsec
   rw [← hpos] at hsec'
   unfold reload
